@@ -567,6 +567,69 @@ def m10_configured_index_published(run):
               "no automatic index any more", fi.loc(), nontrivial=False)
 
 
+def m13_loader_options_per_source(run):
+    run.rule("M13", "the options one metadata source is constructed with "
+             "(check_validity, node_name, filter) are its own: the mapping "
+             "MetadataStore.load / imp fill per source and splat into the "
+             "source's constructor is created in that call, never an object "
+             "kept on the store")
+    m = run.model
+    n = 0
+    for name in ("load", "imp"):
+        fi = m.func("mdstore.MetadataStore." + name)
+        fn = fi.node
+        splat = set()
+        for c in ast.walk(fn):
+            if isinstance(c, ast.Call):
+                for k in c.keywords:
+                    if k.arg is None and isinstance(k.value, ast.Name):
+                        splat.add(k.value.id)
+        params = {a.arg for a in fn.args.args + fn.args.kwonlyargs}
+        if fn.args.kwarg:
+            params.add(fn.args.kwarg.arg)      # **kwargs is fresh per call
+        written = set()
+        for x in ast.walk(fn):
+            tg = []
+            if isinstance(x, ast.Assign):
+                tg = x.targets
+            elif isinstance(x, ast.AugAssign):
+                tg = [x.target]
+            elif isinstance(x, ast.Call) and isinstance(x.func, ast.Attribute) \
+                    and x.func.attr in ("update", "setdefault", "pop", "clear"):
+                tg = [ast.Subscript(value=x.func.value)]
+            for t in tg:
+                if isinstance(t, ast.Subscript) and isinstance(t.value, ast.Name):
+                    written.add(t.value.id)
+        for v in sorted(splat & written):
+            for s in ast.walk(fn):
+                if isinstance(s, ast.Assign) and any(
+                        isinstance(t, ast.Name) and t.id == v
+                        for t in s.targets):
+                    n += 1
+                    e = s.value
+                    while isinstance(e, ast.IfExp):
+                        # both arms are looked at: take the stored one if any
+                        e = e.body if _kept(e.body) else e.orelse
+                    bad = _kept(e)
+                    run.check(not bad, "M13", "%s::%s" % (fi.qual, norm_text(s)[:60]),
+                              "created in the call",
+                              "`%s` is filled with one source's options and "
+                              "splatted into its constructor, but it is the "
+                              "object kept at %s: the options of one source "
+                              "apply to every source loaded after it" %
+                              (v, unparse(e)), fi.loc(s))
+    run.require(n >= 1, "M13: no per-source option mapping found in "
+                "MetadataStore.load / imp")
+
+
+def _kept(e):
+    """expression evaluates to an object that outlives the call: an attribute
+    of self (or an alias chain ending there), not a copy"""
+    if isinstance(e, ast.Attribute):
+        return attr_chain(e).startswith("self.")
+    return False
+
+
 def check(run):
     run.explanation = (
         "C16: agreement of every accessor's (descriptor, service) keys and of "
@@ -601,3 +664,4 @@ def check(run):
               nontrivial=False)
     from ..common_rules import misplaced_rule
     misplaced_rule(run, "M9", {"config", "mdstore", "metadata", "entity", "mdie"}, "building and loading the metadata store")
+    m13_loader_options_per_source(run)
